@@ -479,7 +479,7 @@ func (p *Program) callMods(fm *funcMods, cc *ssa.CallCommon, paramIdx map[*ssa.P
 		fm.ms.all = true
 		return
 	}
-	if !sx.W.inModule(pkgOf(callee)) || len(callee.Blocks) == 0 {
+	if !sx.W.inModule(pkgOf(callee)) || len(callee.Blocks) == 0 || opaquePkg(pkgOf(callee)) {
 		full := callee.String()
 		fm.ms.allocates = true
 		for _, a := range cc.Args {
